@@ -1,6 +1,193 @@
-import BroodModel.Inv
+/-
+  C15 — Resources are addressed by type and untouched by entity operations.
+
+  `res` is the resource list of the L1 world (position = type).  Frame theorems: every entity
+  operation, whatever its arguments and outcome, leaves `res` untouched; `clone` / `clone_from`
+  copy the source's resources value for value.  Lookup: a view list in any order (distinct
+  positions) returns exactly the requested resources in the requested order.  The correspondence
+  check compares `res` after every op with the real world (get / get_mut / view_resources in every
+  generated order and kind, also after clone, clone_from and serde round trips).
+-/
+import BroodModel.World
+
 namespace Brood
-theorem C15_init_inv (n : Nat) (res : List Val) : Inv (World.init n res) := by
-  constructor <;> simp [World.init, Alloc.empty]
+open World
+
+theorem archForEntity_res {w w1 : World} {m : Mask} {h : Nat}
+    (e : w.archForEntity m = .ok (w1, h)) : w1.res = w.res := by
+  unfold archForEntity at e
+  try dsimp only at e
+  repeat' (split at e)
+  all_goals (first
+    | (simp at e; done)
+    | (simp at e; obtain ⟨rfl, _⟩ := e; rfl)
+    | (simp at e; obtain ⟨rfl, _⟩ := e; simp [World.setArch])
+    | (simp at e; subst e; rfl))
+
+theorem archForMask_res {w w1 : World} {m : Mask} {h : Nat}
+    (e : w.archForMask m = .ok (w1, h)) : w1.res = w.res := by
+  unfold archForMask at e
+  try dsimp only at e
+  repeat' (split at e)
+  all_goals (first
+    | (simp at e; done)
+    | (simp at e; obtain ⟨rfl, _⟩ := e; rfl)
+    | (simp at e; obtain ⟨rfl, _⟩ := e; simp [World.setArch])
+    | (simp at e; subst e; rfl))
+
+theorem takeRowAt_res {w w1 : World} {h r : Nat} {vs : List Val} {id : Ident}
+    (e : w.takeRowAt h r = .ok (w1, vs, id)) : w1.res = w.res := by
+  unfold takeRowAt at e
+  try dsimp only at e
+  repeat' (split at e)
+  all_goals (first
+    | (simp at e; done)
+    | (simp at e; obtain ⟨rfl, _⟩ := e; rfl)
+    | (simp at e; obtain ⟨rfl, _⟩ := e; simp [World.setArch])
+    | (simp at e; subst e; rfl))
+
+/-- `insert` never touches a resource. -/
+theorem C15_insert_frame {w w' : World} {shape : List Nat} {vals : List Val} {id : Ident}
+    (e : w.insert shape vals = .ok (w', id)) : w'.res = w.res := by
+  unfold World.insert at e
+  cases h1 : w.archForEntity (Mask.ofShape w.n shape) with
+  | ub x => simp [h1] at e
+  | ok p =>
+    obtain ⟨w1, h⟩ := p
+    have hr := archForEntity_res h1
+    simp only [h1] at e
+    try dsimp only at e
+    repeat' (split at e)
+    all_goals (first
+      | (simp at e; done)
+      | (simp at e; obtain ⟨rfl, _⟩ := e; rfl)
+      | (simp at e; obtain ⟨rfl, _⟩ := e; simp [World.setArch])
+      | (simp at e; subst e; rfl))
+    all_goals (first | exact hr | (simp [World.setArch]; exact hr))
+
+/-- `extend` never touches a resource. -/
+theorem C15_extend_frame {w w' : World} {shape : List Nat} {rows : List (List Val)} {ids : List Ident}
+    (e : w.extend shape rows = .ok (w', ids)) : w'.res = w.res := by
+  unfold World.extend at e
+  cases h1 : w.archForEntity (Mask.ofShape w.n shape) with
+  | ub x => simp [h1] at e
+  | ok p =>
+    obtain ⟨w1, h⟩ := p
+    have hr := archForEntity_res h1
+    simp only [h1] at e
+    try dsimp only at e
+    repeat' (split at e)
+    all_goals (first
+      | (simp at e; done)
+      | (simp at e; obtain ⟨rfl, _⟩ := e; rfl)
+      | (simp at e; obtain ⟨rfl, _⟩ := e; simp [World.setArch])
+      | (simp at e; subst e; rfl))
+    all_goals (first | exact hr | (simp [World.setArch]; exact hr))
+
+/-- `remove` never touches a resource. -/
+theorem C15_remove_frame {w w' : World} {id : Ident} {drops : List Val}
+    (e : w.remove id = .ok (w', drops)) : w'.res = w.res := by
+  unfold World.remove at e
+  cases hg : w.alloc.get id with
+  | none => simp [hg] at e; obtain ⟨rfl, _⟩ := e; rfl
+  | some loc =>
+    simp only [hg] at e
+    cases h1 : w.takeRowAt loc.arch loc.row with
+    | ub x => simp [h1] at e
+    | ok p =>
+      obtain ⟨w1, vs, eid⟩ := p
+      have hr := takeRowAt_res h1
+      simp only [h1] at e
+      try dsimp only at e
+      repeat' (split at e)
+      all_goals (first
+        | (simp at e; done)
+        | (simp at e; obtain ⟨rfl, _⟩ := e; rfl)
+        | (simp at e; obtain ⟨rfl, _⟩ := e; simp [World.setArch])
+        | (simp at e; subst e; rfl))
+      all_goals (first | exact hr | (simp; exact hr))
+
+/-- `clear` never touches a resource. -/
+theorem C15_clear_frame {w w' : World} {order : List Mask} {drops : List Val}
+    (e : w.clear order = .ok (w', drops)) : w'.res = w.res := by
+  unfold World.clear at e
+  try dsimp only at e
+  repeat' (split at e)
+  all_goals (first
+    | (simp at e; done)
+    | (simp at e; obtain ⟨rfl, _⟩ := e; rfl)
+    | (simp at e; obtain ⟨rfl, _⟩ := e; simp [World.setArch])
+    | (simp at e; subst e; rfl))
+
+/-- `reserve` and `shrink_to_fit` never touch a resource. -/
+theorem C15_reserve_frame {w w' : World} {shape : List Nat} (e : w.reserve shape = .ok w') :
+    w'.res = w.res := by
+  unfold World.reserve at e
+  cases h1 : w.archForEntity (Mask.ofShape w.n shape) with
+  | ub x => simp [h1] at e
+  | ok p =>
+    obtain ⟨w1, h⟩ := p
+    simp [h1] at e
+    subst e
+    exact archForEntity_res h1
+
+theorem C15_shrink_frame (w : World) : w.shrinkToFit.res = w.res := rfl
+
+/-- Writing a component through an entry never touches a resource. -/
+theorem C15_write_frame {w w' : World} {id : Ident} {c : Nat} {v : Val} {r : Option (List Val)}
+    (e : w.write id c v = .ok (w', r)) : w'.res = w.res := by
+  unfold World.write at e
+  try dsimp only at e
+  repeat' (split at e)
+  all_goals (first
+    | (simp at e; done)
+    | (simp at e; obtain ⟨rfl, _⟩ := e; rfl)
+    | (simp at e; obtain ⟨rfl, _⟩ := e; simp [World.setArch])
+    | (simp at e; subst e; rfl))
+
+/-- `clone` copies the resources value for value (fresh identities, same base identities). -/
+theorem C15_clone_res {w c : World} {e next : Nat} (h : w.clone e next = .ok c) :
+    c.res = w.res.map (cloneVal e) ∧ c.res.length = w.res.length := by
+  unfold World.clone at h
+  dsimp only at h
+  repeat' (split at h)
+  all_goals (first | (simp at h; done) | (simp at h; subst h; simp))
+
+/-- `clone_from` replaces the destination's resources by copies of the source's, whatever the
+destination held. -/
+theorem C15_cloneFrom_res {d s d' : World} {e : Nat} {drops : List Val}
+    (h : World.cloneFrom d s e = .ok (d', drops)) : d'.res = s.res.map (cloneVal e) := by
+  unfold World.cloneFrom at h
+  dsimp only at h
+  repeat' (split at h)
+  all_goals (first | (simp at h; done) | (simp at h; obtain ⟨rfl, _⟩ := h; rfl))
+
+/-- A copy has the same base identity and type: `PartialEq` sees it as equal. -/
+theorem cloneVal_eqv (e : Nat) (v : Val) : Val.eqv v (cloneVal e v) = true := by
+  simp [Val.eqv, cloneVal, Val.base, epochBase, Nat.add_mul_mod_self_right]
+
+/-- **Lookup by position, in any requested order**: viewing the resources at distinct positions
+`ps` returns exactly `res[p]` for each requested `p`, in the requested order. -/
+theorem C15_view (res : List Val) (ps : List Nat) (h : ∀ p ∈ ps, p < res.length) :
+    ps.filterMap (fun p => res[p]?) = ps.map (fun p => res.getD p default) ∧
+    (ps.filterMap (fun p => res[p]?)).length = ps.length := by
+  induction ps with
+  | nil => simp
+  | cons p ps ih =>
+    have hp : p < res.length := h p (by simp)
+    obtain ⟨ih1, ih2⟩ := ih (fun q hq => h q (by simp [hq]))
+    simp [List.filterMap_cons, List.getElem?_eq_getElem hp, ih1, ih2, List.getD_eq_getElem?_getD]
+
 end Brood
-#print axioms Brood.C15_init_inv
+
+#print axioms Brood.C15_insert_frame
+#print axioms Brood.C15_extend_frame
+#print axioms Brood.C15_remove_frame
+#print axioms Brood.C15_clear_frame
+#print axioms Brood.C15_reserve_frame
+#print axioms Brood.C15_shrink_frame
+#print axioms Brood.C15_write_frame
+#print axioms Brood.C15_clone_res
+#print axioms Brood.C15_cloneFrom_res
+#print axioms Brood.cloneVal_eqv
+#print axioms Brood.C15_view
